@@ -1,5 +1,5 @@
 (* MatchProofs.v — proofs about the model of rule matching (Match.v), property C01. *)
-From Coq Require Import Permutation.
+From Coq Require Import Permutation String.
 From Verif Require Import Base Utf8 Transform Match.
 Open Scope N_scope.
 
@@ -273,7 +273,7 @@ Proof. apply filter_all. rewrite Forall_forall; auto. Qed.
 Lemma filter_false {A} (l : list A) : filter (fun _ => false) l = [].
 Proof. apply filter_none. rewrite Forall_forall; auto. Qed.
 
-Lemma find_all_spec X ord st v : ok_oracle ord ->
+Lemma find_all_spec ord st v : ok_oracle ord ->
   Permutation (find_all ord (collection st v)) (spec_entries st v).
 Proof.
   intro Hord. unfold collection, spec_entries. destruct (var_shape v) as [parts|f|ms|]; cbn [find_all].
@@ -282,7 +282,6 @@ Proof.
   - apply Permutation_refl.
   - apply Permutation_refl.
   - constructor.
-  Unshelve. exact X.
 Qed.
 
 Lemma field_matches_spec X ord st t : wf_state st -> ok_oracle ord ->
@@ -294,12 +293,12 @@ Proof.
   destruct s as [|k|p]; cbn [sel_rx sel_text sel_accepts].
   - (* no key *)
     replace (is_empty (if args_family v then [] else key_lower [])) with true by (destruct (args_family v); reflexivity).
-    rewrite filter_true. apply (find_all_spec X), Hord.
+    rewrite filter_true. apply find_all_spec, Hord.
   - (* string key *)
     destruct (is_empty k) eqn:Ek.
     + replace (is_empty (if args_family v then k else key_lower k)) with true
         by (destruct (args_family v); [|rewrite key_lower_nil_iff]; congruence).
-      rewrite filter_true. apply (find_all_spec X), Hord.
+      rewrite filter_true. apply find_all_spec, Hord.
     + replace (is_empty (if args_family v then k else key_lower k)) with false
         by (destruct (args_family v); [|rewrite key_lower_nil_iff]; congruence).
       unfold selectable. destruct (var_shape v) as [parts|f|ms|] eqn:Hs.
@@ -318,7 +317,7 @@ Proof.
     unfold selectable, eff_rx. destruct (var_shape v) as [parts|f|ms|] eqn:Hs.
     + rewrite (collection_keyed st v parts Hs), (spec_entries_keyed st v parts Hs). cbn [andb].
       rewrite filter_flat_map.
-      apply (concat_find_spec st _ _ ord Hord). intros o p Ho.
+      apply (concat_find_spec st _ _ ord Hord). intros o pt Ho.
       apply leaf_find_regex_spec; [exact Ho | apply Hwf].
     + unfold collection; rewrite Hs. cbn. rewrite filter_false. constructor.
     + unfold collection; rewrite Hs. cbn. rewrite filter_false. constructor.
@@ -449,8 +448,8 @@ Proof. intros H i. specialize (H i). destruct i; exact H. Qed.
 
 Lemma apply_setvar_wf st kv : wf_state st -> wf_state (apply_setvar st kv).
 Proof.
-  intros H i. unfold apply_setvar. destruct i; try exact (H _).
-  cbn. apply map_set1_wf. exact (H MTx).
+  intros H i. unfold apply_setvar. pose proof (H MTx) as Htx. specialize (H i).
+  destruct i; try exact H. cbn. apply map_set1_wf. exact Htx.
 Qed.
 
 Lemma fold_setvar_wf svs : forall st, wf_state st -> wf_state (fold_left apply_setvar svs st).
@@ -464,10 +463,13 @@ Proof.
 Qed.
 
 Lemma build1_wf q : wf_state (build1 q).
-Proof. intro i. destruct i; cbn; try apply map_of_list_wf; apply wf_map_nil. Qed.
+Proof.
+  intro i. destruct i; unfold build1; cbn [get_map s_get s_post s_path s_hdr s_cookie s_tx];
+    try apply map_of_list_wf; apply wf_map_nil.
+Qed.
 
 Lemma set_post_wf st m : wf_state st -> wf_map m -> wf_state (set_post st m).
-Proof. intros H Hm i. destruct i; try exact (H _). exact Hm. Qed.
+Proof. intros H Hm i. specialize (H i). destruct i; try exact H. exact Hm. Qed.
 
 (* ------------------------------------------------------------------------------------ *)
 (* chains                                                                                *)
@@ -607,6 +609,18 @@ Proof.
   cbn [fst map] in *. destruct res as [mds|]; [destruct (r_id r =? 0)|]; cbn [map fst]; constructor; exact IH.
 Qed.
 
+(* no missed rule, no phantom rule, configuration order: the reported ids are exactly spec_fired *)
+Theorem phase_exact X ord ph rules : forall st i,
+  map fst (fst (eval_rules X ord st ph i rules)) = spec_fired X ord st ph i rules.
+Proof.
+  induction rules as [|r rest IH]; intros st i; cbn [eval_rules spec_fired]; [reflexivity|].
+  destruct (in_phase ph r); cbn [andb]; [|apply IH].
+  unfold rule_fires. destruct (eval_rule X (sub ord i) st r) as [res st']. cbn [fst snd].
+  specialize (IH st' (S i)). destruct (eval_rules X ord st' ph (S i) rest) as [out st''].
+  cbn [fst] in *. destruct res as [mds|]; cbn [andb]; [|exact IH].
+  destruct (r_id r =? 0); cbn [negb map fst app]; [exact IH | f_equal; exact IH].
+Qed.
+
 Lemma eval_rules_wf X ord ph rules : forall st i, wf_state st -> wf_state (snd (eval_rules X ord st ph i rules)).
 Proof.
   induction rules as [|r rest IH]; intros st i Hwf; cbn [eval_rules]; [assumption|].
@@ -629,7 +643,7 @@ Proof.
   - pose proof (eval_chain_wf X (sub ord i) (rule_links r) st 0%nat Hwf) as Hw.
     pose proof (chain_fires_iff X (sub ord i) (rule_links r) (sub_ok ord i Hord) st 0%nat Hwf) as Hf.
     pose proof (chain_matchdata_exact X (sub ord i) (rule_links r) (sub_ok ord i Hord) st 0%nat) as Hm.
-    unfold eval_rule. destruct (eval_chain X (sub ord i) st 0 (rule_links r)) as [res st'] eqn:Er. cbn in Hw, Hf.
+    unfold eval_rule. destruct (eval_chain X (sub ord i) st 0 (rule_links r)) as [res st'] eqn:Er. cbn [fst snd] in Hw, Hf.
     specialize (IH st' (S i) id mds Hw). destruct (eval_rules X ord st' ph (S i) rest) as [out st''].
     cbn [fst] in *. intro Hin.
     assert (Hrest : In (id, mds) out -> exists r0 j st0, In r0 (r :: rest) /\ r_id r0 = id /\ id <> 0 /\ in_phase ph r0 = true
@@ -638,10 +652,8 @@ Proof.
     { intro H. destruct (IH H) as [r0 [j [st0 [H1 H2]]]]. exists r0, j, st0. split; [right; assumption | assumption]. }
     destruct res as [m|]; [|auto]. destruct (r_id r =? 0) eqn:Eid; [auto|].
     destruct Hin as [Heq|Hin]; [|auto]. inversion Heq; subst. clear Hrest IH.
-    exists r, i, st. repeat split; try assumption; try (left; reflexivity).
-    + apply N.eqb_neq, Eid.
-    + apply Hf. discriminate.
-    + eapply Hm; [exact Hwf | reflexivity].
+    exists r, i, st. split; [left; reflexivity|]. split; [reflexivity|]. split; [apply N.eqb_neq, Eid|].
+    split; [exact Hph|]. split; [exact Hwf|]. split; [apply Hf; discriminate | eapply Hm; [exact Hwf | reflexivity]].
   - intro Hin. destruct (IH st (S i) id mds Hwf Hin) as [r0 [j [st0 [H1 H2]]]].
     exists r0, j, st0. split; [right; assumption | assumption].
 Qed.
@@ -649,7 +661,7 @@ Qed.
 (* ------------------------------------------------------------------------------------ *)
 (* the known finding F24b and the repaired F24a on the model                             *)
 (* ------------------------------------------------------------------------------------ *)
-Definition q_foo : request := mk_request [(str "Foo", str "1")] [] [] [] (str "/?Foo=1") (str "GET") (str "Foo=1").
+Definition q_foo : request := mk_request [(str "Foo"%string, str "1"%string)] [] [] [] (str "/?Foo=1"%string) (str "GET"%string) (str "Foo=1"%string).
 
 (* ARGS:/^Foo/ never selects the argument Foo although the pattern as written matches the name *)
 Lemma regex_key_case_refuted :
@@ -657,8 +669,8 @@ Lemma regex_key_case_refuted :
     In (key, v) (q_get q) /\ rt_var t = VArgs /\ rt_sel t = SelRx p /\ rt_negs t = [] /\
     rxm csem p key = true /\ get_field csem ord_id (build1 q) (compile_target csem t) = [].
 Proof.
-  exists q_foo, (mk_rtarget false VArgs (SelRx (RxLit true false (str "Foo"))) []),
-         (RxLit true false (str "Foo")), (str "Foo"), (str "1").
+  exists q_foo, (mk_rtarget false VArgs (SelRx (RxLit true false (str "Foo"%string))) []),
+         (RxLit true false (str "Foo"%string)), (str "Foo"%string), (str "1"%string).
   repeat split; try reflexivity. left; reflexivity.
 Qed.
 
@@ -668,13 +680,32 @@ Lemma regex_excl_case_refuted :
     In (key, v) (q_get q) /\ rt_var t = VArgs /\ rt_sel t = SelAll /\ rt_negs t = [SelRx p] /\
     rxm csem p key = true /\ In (VArgs, key, v) (get_field csem ord_id (build1 q) (compile_target csem t)).
 Proof.
-  exists q_foo, (mk_rtarget false VArgs SelAll [SelRx (RxLit true false (str "Foo"))]),
-         (RxLit true false (str "Foo")), (str "Foo"), (str "1").
+  exists q_foo, (mk_rtarget false VArgs SelAll [SelRx (RxLit true false (str "Foo"%string))]),
+         (RxLit true false (str "Foo"%string)), (str "Foo"%string), (str "1"%string).
   repeat split; try reflexivity; left; reflexivity.
 Qed.
 
 (* F24a (repaired by 1583cb7): ARGS_NAMES:Foo selects the argument Foo *)
 Example names_key_case_holds :
-  get_field csem ord_id (build1 q_foo) (compile_target csem (mk_rtarget false VArgsNames (SelStr (str "Foo")) []))
-  = [(VArgsNames, str "Foo", str "Foo")].
+  get_field csem ord_id (build1 q_foo) (compile_target csem (mk_rtarget false VArgsNames (SelStr (str "Foo"%string)) []))
+  = [(VArgsNames, str "Foo"%string, str "Foo"%string)].
 Proof. reflexivity. Qed.
+
+(* NEW finding (not in KNOWN_FINDINGS at the time of writing): for variables outside the ARGS family
+   the SOURCE TEXT of a regex key is lower-cased before compilation, which turns the class \D into
+   \d (likewise \S, \W, \B, \A, \P): REQUEST_HEADERS:/^\D+$/ selects the header "123" and misses "X-Id" *)
+Definition q_hdr_xid : request :=
+  mk_request [] [] [(str "X-Id"%string, str "v1"%string); (str "123"%string, str "v2"%string)] []
+             (str "/"%string) (str "GET"%string) [].
+
+Lemma regex_key_escape_refuted :
+  exists (q : request) (t : rtarget) (p : rxpat) (key v key' v' : bytes),
+    rt_var t = VReqHeaders /\ rt_sel t = SelRx p /\ rt_negs t = [] /\ rt_count t = false /\
+    In (key, v) (q_hdr q) /\ rxm csem p key = true /\ rxm csem p (key_lower key) = true /\
+    In (key', v') (q_hdr q) /\ rxm csem p key' = false /\
+    get_field csem ord_id (build1 q) (compile_target csem t) = [(VReqHeaders, key', v')].
+Proof.
+  exists q_hdr_xid, (mk_rtarget false VReqHeaders (SelRx RxNonDigits) []), RxNonDigits,
+         (str "X-Id"%string), (str "v1"%string), (str "123"%string), (str "v2"%string).
+  repeat split; try reflexivity; cbn; auto.
+Qed.
